@@ -131,7 +131,7 @@ theorem Good.id_ne_zero {w : W} (hg : Good w) : w.mtp.id ≠ 0 := by
 
 /-- a successful incremental interest payment keeps the world good -/
 theorem iipBody_good {w : W} {interest : Nat} {r : Nat × W} (hg : Good w) (h : iipBody w interest = .ok r) :
-    Good r.2 ∧ r.2.mtp.key = w.mtp.key ∧ r.2.pool.sym = w.pool.sym := by
+    Good r.2 ∧ r.2.mtp.key = w.mtp.key ∧ r.2.pool.sym = w.pool.sym ∧ Frame w.s r.2.s w.mtp.key w.pool.sym := by
   obtain ⟨x, hsame, hcust, hsym, hc, hl, hpools, hmtps, hoc, hmc⟩ := iipBody_ok hg.id_ne_zero h
   obtain ⟨p0, hp0, hpc, hpl⟩ := hg.pool
   obtain ⟨m0, hm0, hm0s⟩ := hg.mtp
@@ -144,7 +144,7 @@ theorem iipBody_good {w : W} {interest : Nat} {r : Nat × W} (hg : Good w) (h : 
   have hm0sym : m0.poolSym = w.pool.sym := by rw [poolSym_congr hm0s.coll.symm hm0s.cust.symm]; exact hg.home
   have hnsym : r.2.mtp.poolSym = w.pool.sym := by rw [poolSym_congr hcoll hcu]; exact hg.home
   obtain ⟨hmem, hk0⟩ := getMtpL_some_mem hm0
-  refine ⟨⟨?_, ?_, ?_, ?_, ?_⟩, hkey, hsym⟩
+  refine ⟨⟨?_, ?_, ?_, ?_, ?_⟩, hkey, hsym, ⟨fun k' hk' => by rw [hmtps]; exact getMtpL_setMtpL_other _ (by rw [hkey]; exact hk'), fun y hy => by rw [hpools]; exact getPoolL_setPoolL_other _ (by rw [hsym]; exact hy)⟩⟩
   · unfold OKp
     rw [hpools, hmtps, hoc]
     apply OKc_trans (sym := w.pool.sym) (p0 := p0) (old := some m0) (new := some r.2.mtp) hg.ok hg.wf.syms hp0 hsym
@@ -186,13 +186,13 @@ theorem iipBody_good {w : W} {interest : Nat} {r : Nat × W} (hg : Good w) (h : 
 
 /-- `HandleInterestPayment` of the repaired code keeps the world good on every exit -/
 theorem handleInterestPayment_good {fx : Fixes} (hfx : fx.iipCopy = true) {w : W} {interest : Nat} (hg : Good w) :
-    (∀ r, handleInterestPayment fx w interest = .ok r → Good r.2 ∧ r.2.mtp.key = w.mtp.key ∧ r.2.pool.sym = w.pool.sym) ∧
-    (∀ e w', handleInterestPayment fx w interest = .error (e, w') → Good w' ∧ w'.mtp.key = w.mtp.key ∧ w'.pool.sym = w.pool.sym) := by
+    (∀ r, handleInterestPayment fx w interest = .ok r → Good r.2 ∧ r.2.mtp.key = w.mtp.key ∧ r.2.pool.sym = w.pool.sym ∧ Frame w.s r.2.s w.mtp.key w.pool.sym) ∧
+    (∀ e w', handleInterestPayment fx w interest = .error (e, w') → Good w' ∧ w'.mtp.key = w.mtp.key ∧ w'.pool.sym = w.pool.sym ∧ Frame w.s w'.s w.mtp.key w.pool.sym) := by
   have hbank : ∀ (e : Err) (w' : W), iipBody w interest = .error (e, w') →
-      Good ({ w with s := w'.s } : W) := by
+      Good ({ w with s := w'.s } : W) ∧ Frame w.s w'.s w.mtp.key w.pool.sym := by
     intro e w' h
     have hl : LedgerSame w.s w'.s := iipBody_err hg.id_ne_zero h
-    exact hg.congr (w' := { w with s := w'.s }) hl (Pool.sameLedger_refl _) (MtpSame.refl _)
+    exact ⟨hg.congr (w' := { w with s := w'.s }) hl (Pool.sameLedger_refl _) (MtpSame.refl _), hl.frame _ _⟩
   unfold handleInterestPayment incrementalInterestPayment
   constructor
   · intro r h
@@ -205,9 +205,9 @@ theorem handleInterestPayment_good {fx : Fixes} (hfx : fx.iipCopy = true) {w : W
         rw [hb] at h; simp only [hfx, if_true] at h
         split at h
         · simp at h
-        · simp at h; rw [← h]; exact ⟨hbank e w' hb, rfl, rfl⟩
+        · simp at h; rw [← h]; exact ⟨(hbank e w' hb).1, rfl, rfl, (hbank e w' hb).2⟩
     · simp at h; rw [← h]
-      exact ⟨hg.congr (LedgerSame.refl _) (Pool.sameLedger_refl _) ⟨rfl, rfl, rfl, rfl, rfl, rfl⟩, rfl, rfl⟩
+      exact ⟨hg.congr (LedgerSame.refl _) (Pool.sameLedger_refl _) ⟨rfl, rfl, rfl, rfl, rfl, rfl⟩, rfl, rfl, Frame.refl _ _ _⟩
   · intro e w' h
     split at h
     · cases hb : iipBody w interest with
@@ -216,7 +216,7 @@ theorem handleInterestPayment_good {fx : Fixes} (hfx : fx.iipCopy = true) {w : W
         obtain ⟨e', w''⟩ := ew
         rw [hb] at h; simp only [hfx, if_true] at h
         split at h
-        · simp at h; rw [← h.2]; exact ⟨hbank e' w'' hb, rfl, rfl⟩
+        · simp at h; rw [← h.2]; exact ⟨(hbank e' w'' hb).1, rfl, rfl, (hbank e' w'' hb).2⟩
         · simp at h
     · simp at h
 
